@@ -4,6 +4,7 @@ CONSTANTS
   Vals = {"1Ki", "1Z", "1Zi", "1Y", "1Yi", "1k"}
   Bases = {"N1", "N2"}
   XVals = {"", "s1", "s2"}
+  XYVals = {""}
   GVals = {"", "4"}
   MenuIds = {"e6", "e7", "e10"}
   MaxExprs = 3
